@@ -5,7 +5,7 @@ import glob, json, os, re, subprocess, sys
 want = set(sys.argv[1:])
 dirs = sorted(glob.glob("/verif/seeded/C*-*") + glob.glob("/verif/seeded/pending/C*-*"))
 results = {}
-rp = "/verif/seeded/RESULTS.json"
+rp = os.environ.get("SEED_RESULTS", "/verif/seeded/RESULTS.json")
 if os.path.exists(rp):
     results = json.load(open(rp))
 for d in dirs:
